@@ -221,8 +221,19 @@ func (c *FnCtx) onceSchema(st *State, call *ast.CallExpr, lit *ast.FuncLit) {
 	c.allowGlobalWrite = true
 	outs := c.runClosureBody(ran, lit, nil)
 	c.allowGlobalWrite = false
-	_ = outs
-	// after the call: the written locations hold either the old or some value produced by a run
+	// after the call: either the argument did not run (state unchanged) or it ran to completion (one of its end states)
+	cands := []Out{{st: st.clone()}}
+	for _, o := range outs {
+		if o.flow == FNormal || o.flow == FReturn {
+			o.st.ret = nil
+			cands = append(cands, Out{st: o.st})
+		}
+	}
+	if merged := c.mergeNormal(cands); len(merged) == 1 {
+		*st = *merged[0].st
+		return
+	}
+	// fall back: the written locations hold unknown values
 	c.havocWrites(st, log)
 }
 
